@@ -4,6 +4,7 @@ Exit codes: 0 held (known findings printed) | 1 VIOLATION | 2 undecided | 3 chec
 """
 import json
 import os
+import re
 import sys
 import time
 import traceback
@@ -332,6 +333,8 @@ class CheckContext:
     def match_known(self, known, r, native):
         for k in known:
             if k.get("obligation") and k["obligation"] != r.ident:
+                continue
+            if k.get("obligation_regex") and not re.fullmatch(k["obligation_regex"], r.ident):
                 continue
             if k.get("case_key") is not None and k["case_key"] != getattr(r, "case_key", None):
                 continue
